@@ -37,6 +37,11 @@ RichShapes(name) ==
     \cup { [d EXCEPT !.k = "struct", !.pub = p, !.opq = TRUE] : p \in BOOLEAN }
     \cup { [d EXCEPT !.k = "word", !.pub = p, !.size = sm[1], !.mem = sm[2]]
         : p \in BOOLEAN, sm \in { <<4, <<<<"m", I32>>>>>>, <<16, <<<<"m", <<"u64">>>>, <<"n", <<"u64">>>>>>>> } }
+    \* "Structures and constants can also be declared `extern`" (docs/features.md): the flag is part of the declaration
+    \cup { [d EXCEPT !.k = "const", !.pub = p, !.ext = TRUE, !.ty = I32, !.val = <<"1">>] : p \in BOOLEAN }
+    \cup { [d EXCEPT !.k = "struct", !.pub = p, !.ext = TRUE, !.mem = <<<<"m", I32>>>>] : p \in BOOLEAN }
+    \cup { [d EXCEPT !.k = "struct", !.pub = p, !.ext = TRUE, !.opq = TRUE] : p \in BOOLEAN }
+    \cup { [d EXCEPT !.k = "word", !.pub = p, !.ext = TRUE, !.size = 4, !.mem = <<<<"m", I32>>>>] : p \in BOOLEAN }
     \cup { [d EXCEPT !.k = "import"] }
 
 (* "narrow": 5 shapes, for longer modules (zone patterns over 7 declarations) *)
@@ -59,6 +64,9 @@ MidShapes(name) ==
     \cup { [d EXCEPT !.k = "struct", !.pub = p, !.mem = <<<<"m", <<"[]", "u8">>>>, <<"n", PI32>>>>] : p \in BOOLEAN }
     \cup { [d EXCEPT !.k = "struct", !.pub = p, !.opq = TRUE] : p \in BOOLEAN }
     \cup { [d EXCEPT !.k = "word", !.pub = p, !.size = 4, !.mem = <<<<"m", I32>>>>] : p \in BOOLEAN }
+    \cup { [d EXCEPT !.k = "const", !.pub = TRUE, !.ext = TRUE, !.ty = I32, !.val = <<"1">>],
+           [d EXCEPT !.k = "struct", !.pub = TRUE, !.ext = TRUE, !.mem = <<<<"m", I32>>>>],
+           [d EXCEPT !.k = "word", !.pub = TRUE, !.ext = TRUE, !.size = 4, !.mem = <<<<"m", I32>>>>] }
     \cup { [d EXCEPT !.k = "import"] }
 
 \* one line per finished module: the input, the rule's header, and what the model predicts for the hooks
